@@ -545,7 +545,7 @@ func init() {
 	register(&Check{Prop: "C09", Level: "fault_enumeration",
 		Rule:   fmt.Sprintf("corpus of (prefix -> target reconcile) pairs: %d directed entries (fresh set with claims, template change, rollback/renumber, slot scale-in, failed-pod replacement, history truncation, adoption/release/identity update, migrated-revision label sync + adoption; both policies) plus sampled hostile scenarios; the fault-free twin yields the call identities of the target reconcile; then EVERY identity x applicable error kind (server error, timeout, conflict, not-found, already-exists; consistent faults) x {before, applied-then-error, process death before, process death after} is injected into the target reconcile run through the real worker path; second faults in the retry reconcile are enumerated (thorough, directed corpus) or sampled; after the fault the event-driven loop (ordered cache delivery -> real handlers -> virtual-time queue -> processNextWorkItem) runs to quiescence; oracles: failure reported (retry scheduled), recovery (quiescent, converged, final state equal to the twin on the spec-determined components, no key failing 30 times in a row), harmlessness (safety monitors C03-C07, C10, C12, C13 armed on the partial work); distinct = distinct (entry, fault plan)", nd),
 		Assume: append([]string{"crash points are 'before call k' and 'after call k was applied': the controller keeps no state between API calls, so these exhaust the externally distinguishable crash points", "environment chaos stops before the fault so both twins see the same world; the kubelet is co-operative during recovery", "a consistent NotFound is only injected on pods and on revision deletes (elsewhere the final state differs trivially)"}, simAssumptions...),
-		Cases:  func(t string) int { return nd + scenarioCases(20, 800)(t) },
+		Cases:  func(t string) int { return nd + scenarioCases(120, 2400)(t) },
 		Run:    runC09,
 		Floors: []string{"single_fault_runs", "double_fault_runs", "faults_fired", "failures_reported", "fault_500_crash-after", "fault_conflict_before", "fault_notfound_before", "fault_exists_before",
 			"target_calls_patch_pods", "target_calls_patch_controllerrevisions", "target_calls_delete_controllerrevisions", "target_calls_update_controllerrevisions", "target_calls_create_persistentvolumeclaims", "target_calls_delete_pods", "target_calls_update_pods"}})
